@@ -90,7 +90,7 @@ RULE = (
 )
 SCOPE = {"quick": {"N": 9600}, "thorough": {"N": 48000}}
 FLOOR = {"quick": 1500, "thorough": 15000}
-_SYNTAX = ["gff.columns", "gff.structure", "gff.coords", "gff.strand", "gff.phase", "gff.unique-ids", "gff.parent-earlier", "gff.sorted",
+_SYNTAX = ["gff.repeatable", "gff.columns", "gff.structure", "gff.coords", "gff.strand", "gff.phase", "gff.unique-ids", "gff.parent-earlier", "gff.sorted",
            "gff.reserved-attrs", "gff.attr-decode", "gff.fasta"]
 _LIB = ["reparse.parses", "reparse.structure", "reparse.identifiers", "reparse.qualifiers", "reparse.sequence", "reparse.reexport"]
 REQUIRED_MONITORS = _SYNTAX + _LIB
@@ -780,6 +780,12 @@ def _one_export(case, exp, reserved, ctx):
         ctx.check("gff.columns", False, key=("export-raised", type(exc).__name__), mode=mode, exc=repr(exc)[:300])
         return
     text = handle.getvalue()
+    # the same in-memory objects exported a second time with the same arguments give the same file (an export is a function of
+    # its collection, not of how often it was exported)
+    h2 = io.StringIO()
+    _, exc2 = ctx.call(collection_to_gff3, objs, h2, add_sequences=fasta, chromosome_relative_coordinates=chromrel, raise_on_reserved_attributes=raise_reserved)
+    ctx.check("gff.repeatable", exc2 is None and h2.getvalue() == text, key=("second-export-of-the-same-objects", "raised" if exc2 else "differs"), mode=mode,
+              exc=repr(exc2)[:200] if exc2 else None, first_lines=len(text.splitlines()), second_lines=len(h2.getvalue().splitlines()))
     parsed = R.parse(text)
     _syntax_leg(case, exp, reserved, text, parsed, ctx)
     if exp.get("reparse"):
@@ -1066,6 +1072,12 @@ def _compare_gene(ctx, g, p, off, mode, chunk_relative=False):
         ident("transcript_id", t.get("transcript_id"), q.transcript_id, "transcript")
         ident("transcript_symbol", t.get("transcript_symbol"), q.transcript_symbol, "transcript")
         ident("transcript_type", t.get("transcript_type"), _enum_name(q.transcript_type), "transcript", gene_type=g.get("gene_type"))
+        if t.get("transcript_type") is None:
+            # a transcript without biotype may come back without one or with the documented default, its GENE's biotype - never
+            # with something else (e.g. a sibling isoform's)
+            gotbt = _enum_name(q.transcript_type)
+            ctx.check("reparse.identifiers", gotbt is None or gotbt == g.get("gene_type"), key=("transcript", "transcript_type-default-is-the-gene-biotype"),
+                      mode=mode, got=gotbt, gene_type=g.get("gene_type"), sibling_types=[x.get("transcript_type") for x in g["transcripts"]])
         for f in ("protein_id", "product"):
             want = t.get(f) if cds else None
             if want is None:
